@@ -13,7 +13,9 @@ RULE = (
     'compound rule "damage the loose copy (size-changing or same-size corruption, objects up to 600 kB) then re-add its content") interpreted on the real container next to a dict model; '
     'oracle after every step: returned key == digest, <= 1 index row and <= 1 loose file per key, stored objects == distinct '
     'contents, every key reads back; for a no_holes call: unreferenced bytes per pack do not increase and packs grow by exactly '
-    'the stored length of previously unknown contents. Non-trivial = history containing a no_holes call with a repeat of packed '
+    'the stored length of previously unknown contents. Plus direct damage cases: @given(object size from 1 B to 1.3 MB straddling the '
+    '512 KiB hashing chunk, damage kind incl. same-size corruption at a generated position, write path, also packed or not): damage '
+    'the loose copy, store the content again, the loose file must hold the right bytes. Non-trivial = history containing a no_holes call with a repeat of packed '
     'content followed by a new content, or a damaged-copy re-add; distinct by (config, op kinds, flags, parameter signature).'
 )
 ASSUMPTIONS = [
@@ -50,11 +52,100 @@ def nontrivial(world):
     return 'repeat-then-new' in world.flags or 'damage-readd' in world.flags
 
 
+DAMAGE_SIZES = (1, 2, 100, 4096, 65536, 65537, 524287, 524288, 524289, 600001, 1048577, 1300000)
+
+
+def damage_strategy():
+    from hypothesis import strategies as st
+
+    return st.fixed_dictionaries(
+        {
+            'cfg': gen.config(),
+            'content': st.tuples(st.sampled_from(['random', 'text', 'mixed', 'zeros']), st.sampled_from(DAMAGE_SIZES), st.integers(0, 20)).map(list),
+            'damage': st.sampled_from(['flip-first', 'flip-middle', 'flip-last', 'zero-block', 'truncate', 'extend', 'garbage', 'empty']),
+            'where': st.integers(0, 10**7),
+            'via': st.sampled_from(['add_object', 'add_streamed_object']),
+            'also_packed': st.booleans(),
+        }
+    )
+
+
+def run_damage_case(case):
+    """Direct form of the last clause of C09: damage the loose copy in a generated way (also without changing its size), store the
+    same content again through a loose write path: the key is returned and a correct loose copy is in place."""
+    import io
+    import os
+
+    from disk_objectstore import Container
+
+    from vlib.common import Violation, config_kwargs, content_of, digest, new_dir, rm_dir, short
+    from vlib.rawread import RawState
+
+    data = content_of(case['content'])
+    root = new_dir('c09d')
+    cont = Container(os.path.join(root, 'c'))
+    try:
+        cont.init_container(**config_kwargs(case['cfg']))
+        key = cont.add_object(data)
+        if case['also_packed']:
+            cont.add_objects_to_pack([data])
+        path = RawState(os.path.join(root, 'c')).loose_paths[key]
+        size = len(data)
+        pos = case['where'] % size
+        kind = case['damage']
+        if kind == 'flip-first':
+            damaged = bytes([data[0] ^ 1]) + data[1:]
+        elif kind == 'flip-middle':
+            damaged = data[:pos] + bytes([data[pos] ^ 0x40]) + data[pos + 1 :]
+        elif kind == 'flip-last':
+            damaged = data[:-1] + bytes([data[-1] ^ 0x80])
+        elif kind == 'zero-block':
+            end = min(size, pos + 4096)
+            damaged = data[:pos] + bytes(b ^ 0xFF for b in data[pos:end]) + data[end:]
+        elif kind == 'truncate':
+            damaged = data[:pos]
+        elif kind == 'extend':
+            damaged = data + b'x'
+        elif kind == 'garbage':
+            damaged = b'garbage'
+        else:
+            damaged = b''
+        with open(path, 'wb') as fhandle:
+            fhandle.write(damaged)
+        got = cont.add_object(data) if case['via'] == 'add_object' else cont.add_streamed_object(io.BytesIO(data))
+        if got != digest(case['cfg']['hash_type'], data):
+            raise Violation(PROP, 'damage:wrong-key', f're-adding returned {got}')
+        with open(path, 'rb') as fhandle:
+            now = fhandle.read()
+        if now != data:
+            raise Violation(
+                PROP, f'damaged-copy-kept:{kind}',
+                f'loose copy of a {size}-byte object damaged by {kind} (same size: {len(damaged) == size}) and re-added via {case["via"]}: '
+                f'the loose file still holds {short(now)} ({len(now)} bytes)',
+            )
+        if cont.get_object_content(key) != data and not case['also_packed']:
+            raise Violation(PROP, 'damage:read-wrong', 'object reads wrong bytes after the re-add')
+    finally:
+        cont.close()
+        rm_dir(root)
+    same_size = len(damaged) == size
+    labels = ['damage-case', f'damage:{kind}', 'damage:same-size' if same_size else 'damage:size-changed', 'size>512K' if size > 524288 else 'size<=512K']
+    return True, ['d', case['content'][1], kind, case['via'], case['also_packed'], same_size], {'direct_damage_case': {k: case[k] for k in ('content', 'damage', 'via', 'also_packed')}}, labels
+
+
 def run_shard(ctx):
     n = 160 if ctx.tier == 'quick' else 8000
     ctx.set_budget(75 if ctx.tier == 'quick' else 1100)
     run_histories(ctx, PROP, strategy(), checkers, nontrivial, n)
+    if not ctx.stats.violations:
+        from vlib.runner import explore
+
+        ctx.set_budget(20 if ctx.tier == 'quick' else 300)
+        explore(ctx, damage_strategy(), run_damage_case, 60 if ctx.tier == 'quick' else 3000, salt=5)
 
 
 def replay(case):
+    if 'damage' in case:
+        run_damage_case(case)
+        return
     replay_history(case, PROP, checkers)
